@@ -211,12 +211,25 @@ CLAIMED = {
         technique="static analysis: typestate (range test after last modification) over clang CFG with short-circuit-aware ordering, "
         "branch-structure rule for the view wrap-around, closed-form parity/linearity algebra (sympy) on accessor bodies",
     ),
+    "C19": dict(
+        text="Static analysis of the current source; two structural clauses of C19 only. Decides: in the direct-convolution filters "
+        "(ArrayFilter1D/2D/3DUsingConvolution) the loop of every kernel index runs exactly over the kernel elements whose data partner "
+        "exists - max(k_min, c - in_max) .. min(k_max, c - in_min) with the kernel's and the data's index range of the same axis (1D: the "
+        "upper bound; its start depends on the boundary condition) - so no coefficient is dropped and nothing outside the kernel is read; "
+        "inverse_fourier / inverse_fourier_1d are the forward transform with the opposite sign followed by division by the number of "
+        "elements. NOT decided: every numerical identity of C19 (inverse of forward, real/complex agreement, Parseval, padded-DFT route = "
+        "direct convolution, separability, mean preservation).",
+        technique="static analysis: loop-bound shape rule per subscript axis over canonical keys with single-definition locals inlined; "
+        "resolved-callee/argument check of the inverse transforms",
+    ),
     "C07": dict(
         text="Static analysis of OSMAPOSLReconstruction::update_estimate; thin structural part of C07 only. Decides: one subset number is "
         "drawn per sub-iteration and used both for the gradient-plus-sensitivity and for the subset sensitivity it is divided by; the "
         "update image is computed, divided, optionally limited and only then multiplied into the current image on every path; on the prior "
         "branch the denominator loop computes exactly clamp(g/N + s, s/10, 10 s) (additive) resp. s*clamp(1+g, 1/10, 10) (multiplicative) "
-        "- the documented bounds, compared as piecewise-linear functions with C++ integer division semantics - and the division follows that loop. The EM update formula, "
+        "- the documented bounds, compared as piecewise-linear functions with C++ integer division semantics - and the division follows that loop; the "
+        "voxelwise loops advance all their iterators exactly once per iteration on every path, divide() zeroes an element only when both "
+        "|denominator| and |numerator| are below the threshold, the multiplicative update multiplies element by element. The EM update formula, "
         "non-negativity, monotonicity, count preservation and restart equivalence are NOT decided.",
         technique="static analysis: must-pass-through ordering with resolved operands, closed-form evaluation of a straight-line loop "
         "body and exact piecewise-linear comparison",
@@ -235,7 +248,6 @@ CLAIMED = {
 
 NOT_APPLICABLE = {
     "C15": "conservation of sums / centre of mass over runtime data and floating-point matching of sinograms; nothing decidable from the shape of the code",
-    "C19": "numerical identities of DFTs and filters over runtime arrays; no structural clause beyond trivia",
 }
 
 PENDING_REASON = "no static rule built for it yet in this framework (see DESIGN.md for the planned clauses); not claimed"
